@@ -94,6 +94,10 @@ def walk_direct(ctx, spec, rng):
     prot, tr = net.make_sd(h.loop)
     ndst = spec["ndst"]
     dsts = [None] + [(f"10.9.0.{(i + 1) // 2}", 30490 + i % 2) for i in range(1, ndst)]  # pairs share a host
+    if ndst >= 4:
+        # two destinations that differ in the IPv6 scope id only (one link-local address behind two interfaces)
+        dsts[-2:] = [("fe80::9", 30490, 0, 2), ("fe80::9", 30490, 0, 3)]
+        ctx.count("walks_with_scope_id_siblings")
     target = spec["per_dst"]
     counts = {d: 0 for d in dsts}
     sched = []
